@@ -112,6 +112,7 @@ class Ctx:
         self.harness_errors = []  # exceptions inside monitor code itself (=> run inconclusive, never a violation)
         self._solver_types = None
         self._sample_budget = collections.Counter()
+        self.hist = None  # call-history monitor: list of [function, argument digest, result fingerprint, solver?] for the running case
 
     # ------------------------------------------------------------------ events
     def sig(self, signature, nontrivial=True):
@@ -182,7 +183,7 @@ class Ctx:
             self._solver_types = _solver_exc_types()
         return self._solver_types
 
-    def call(self, fn, *args, monitor=None, solver=False, expect=(), mech_prefix=None, mech=None, freeze=None, **kwargs):
+    def call(self, fn, *args, monitor=None, solver=False, expect=(), mech_prefix=None, mech=None, freeze=None, history=True, **kwargs):
         """Call a library function inside the property's quantifier.
 
         * an exception listed in ``expect`` is returned (documented rejection);
@@ -199,7 +200,8 @@ class Ctx:
             kwargs = {k: _freeze(v) for k, v in kwargs.items()}
             self.evals["hostile:read-only-arguments"] += 1
         watch = freeze is not False and not frozen and ARGWATCH
-        if watch:
+        hist = self.hist if history else None
+        if watch or hist is not None:
             from . import snap
 
             before = (snap.plain_digest(args), snap.plain_digest(kwargs))
@@ -215,16 +217,24 @@ class Ctx:
                 self.evals["hostile:arguments-digest"] += 1
                 if (snap.plain_digest(args), snap.plain_digest(kwargs)) != before:
                     self.fail(monitor, f"{name}:modifies-caller-argument", {"args-after": enc(args), "kwargs-after": enc(kwargs)})
+            if hist is not None:
+                hist.append([name, before[0][:12] + before[1][:4], snap.fingerprint(out), bool(solver)])
             return out
         except CaseTimeout:
             if limit and time.monotonic() - t0 >= limit - 1:
                 # the solver did not return within the per-solve budget: instance-level inconclusive
                 self.solver_fail[name + ":timeout"] += 1
+                if hist is not None:
+                    hist.append([name, before[0][:12] + before[1][:4], ["x"], True])
                 return FAILED
             raise
         except expect as exc:  # type: ignore[misc]
+            if hist is not None:
+                hist.append([name, before[0][:12] + before[1][:4], snap.fingerprint(exc), bool(solver)])
             return exc
         except Exception as exc:  # noqa: BLE001
+            if hist is not None:
+                hist.append([name, before[0][:12] + before[1][:4], ["x"], bool(solver)])  # no value: the rest of the case is not compared
             if solver and (isinstance(exc, self.solver_types()) or _raised_inside_numerical_solver(exc)):
                 self.solver_fail[name + ":" + type(exc).__name__] += 1
                 return FAILED
